@@ -208,4 +208,45 @@ example : let inst : Instance := { id := List.replicate 16 0, ty := .excavator, 
     dispatched (run inst {} [.bytes [0x4C, 0x58, 0x52, 3, 0x20], .signal (.motion .resumeAll), .bytes [0, 1, 0, 0, 0, 0],
       .bytes (Frame.mk 0x20 [0]).bytes]).2 = [.motion .stopAll, .motion .stopAll] := by decide
 
+/-! ### the translator tie: `UnixServer::parse` and the session loop as regenerated tables -/
+
+/-- the model's `serverKind?` has a case exactly for the message types that have an arm in `UnixServer::parse` of the current
+source; every such arm reads its payload with `recv_packet` of its own type and the catch-all arm drains the payload
+(what the model's frame handling rests on) -/
+theorem C04_parse_arms_as_modelled :
+    (∀ ty, (serverKind? ty).isSome = serverArmTypes.contains ty) ∧
+    serverArmsReadOwnPayload = true ∧ serverCatchAllDrains = true := by
+  refine ⟨?_, by decide, by decide⟩
+  intro ty
+  unfold serverKind?
+  by_cases h1 : ty = msgTypeSession
+  · subst h1; decide
+  · by_cases h2 : ty = msgTypeEngine
+    · subst h2; decide
+    · by_cases h3 : ty = msgTypeMotion
+      · subst h3; decide
+      · by_cases h4 : ty = msgTypeTarget
+        · subst h4; decide
+        · by_cases h5 : ty = msgTypeControl
+          · subst h5; decide
+          · have e1 : msgTypeSession = 16 := by decide
+            have e2 : msgTypeEngine = 67 := by decide
+            have e3 : msgTypeMotion = 32 := by decide
+            have e4 : msgTypeTarget = 68 := by decide
+            have e5 : msgTypeControl = 69 := by decide
+            have et : serverArmTypes = [16, 67, 32, 68, 69] := by decide
+            simp only [h1, h2, h3, h4, h5, if_false, Option.isSome_none, et]
+            rw [e1] at h1; rw [e2] at h2; rw [e3] at h3; rw [e4] at h4; rw [e5] at h5
+            simp [h1, h2, h3, h4, h5]
+
+/-- the session loop of the current source has the shape the model's `close` / `signalsClosed` events stand for: exactly
+the four read-error kinds of `CloseMode` leave the loop and no other error does, only a closed signal channel ends it
+from the signal side, nothing returns out of the session function before the fail-safe block, that block sends
+stop-all on the command channel when the session is a fail-safe one, and a connection starts with no flag set (the
+model's initial state `{}`) -/
+theorem C04_session_loop_as_modelled :
+    sessionEndKinds = [1, 2, 3, 4] ∧ sessionOtherErrorsEnd = false ∧ sessionSignalClosedEnds = true ∧
+    sessionLoopBreaks = 5 ∧ sessionReturnsBeforeFailsafe = 0 ∧ sessionFailsafeAfterLoop = true ∧
+    sessionStartsUnregistered = true := by decide
+
 end Glonax.Thm.C04
